@@ -641,35 +641,7 @@ func c10R7(c *Ctx, info *effectsInfo) {
 			}
 		}
 	}
-	// unlock discipline of every function that takes a lock
-	for _, f := range info.Funcs {
-		li := lc.of(f)
-		if len(li.Ops) == 0 {
-			continue
-		}
-		mutexes := map[string]bool{}
-		for _, op := range li.Ops {
-			if op.Op == "Lock" || op.Op == "RLock" {
-				mutexes[op.Mutex] = true
-			}
-		}
-		for _, m := range sortedStr(mutexes) {
-			key := funcKey(f) + "/" + m
-			var leaks []string
-			pos := c.Prog.Rel(f.Pos())
-			for _, lk := range li.Leaks {
-				if lk.Mutex == m {
-					leaks = append(leaks, fmt.Sprintf("return at %s with %s held", c.Prog.Rel(lk.Return.Pos()), lk.Mode))
-					pos = c.Prog.Rel(lk.Return.Pos())
-				}
-			}
-			if len(leaks) > 0 {
-				r.Bad(ruleU, key, pos, "unlock deferred or on every path", strings.Join(leaks, "; "))
-			} else {
-				r.OK(ruleU, key, pos, "unlock deferred or on every path", "no return reachable with the mutex held", true)
-			}
-		}
-	}
+	unlockObligations(c, info, lc, ruleU)
 }
 
 var _ = load.ModPath
@@ -720,4 +692,45 @@ func freshBandObligations(c *Ctx, info *effectsInfo, ruleC string) {
 func ruleFreshBands(c *Ctx, rule string) {
 	c.Run.Rule(rule, "every band constructor returns memory that is fresh per call and reaches no package-level variable: the tables of one configuration cannot be changed through another band object")
 	freshBandObligations(c, effectsFor(c.Prog), rule)
+}
+
+// unlockObligations: no return of any function that takes a mutex leaves it locked (unlock on every path or deferred).
+func unlockObligations(c *Ctx, info *effectsInfo, lc *lockCtx, ruleU string) {
+	r := c.Run
+	for _, f := range info.Funcs {
+		li := lc.of(f)
+		if len(li.Ops) == 0 {
+			continue
+		}
+		mutexes := map[string]bool{}
+		for _, op := range li.Ops {
+			if op.Op == "Lock" || op.Op == "RLock" {
+				mutexes[op.Mutex] = true
+			}
+		}
+		for _, m := range sortedStr(mutexes) {
+			key := funcKey(f) + "/" + m
+			var leaks []string
+			pos := c.Prog.Rel(f.Pos())
+			for _, lk := range li.Leaks {
+				if lk.Mutex == m {
+					leaks = append(leaks, fmt.Sprintf("return at %s with %s held", c.Prog.Rel(lk.Return.Pos()), lk.Mode))
+					pos = c.Prog.Rel(lk.Return.Pos())
+				}
+			}
+			if len(leaks) > 0 {
+				r.Bad(ruleU, key, pos, "unlock deferred or on every path", strings.Join(leaks, "; "))
+			} else {
+				r.OK(ruleU, key, pos, "unlock deferred or on every path", "no return reachable with the mutex held", true)
+			}
+		}
+	}
+}
+
+// ruleNoLockLeak is unlockObligations for checks other than C10: a leaked lock makes every later operation on the
+// same mutex block forever.
+func ruleNoLockLeak(c *Ctx, rule string) {
+	c.Run.Rule(rule, "no return leaves a mutex locked (unlock on every path or deferred): a leaked lock blocks every later decoder that takes the same mutex")
+	info := effectsFor(c.Prog)
+	unlockObligations(c, info, newLockCtx(info), rule)
 }
